@@ -638,6 +638,7 @@ func main() {
 	}
 	var arts []*Artifact
 	var skipped []string
+	builders := builderList(run.Thorough())
 	for _, b := range builders {
 		if len(only) > 0 && !only[b.name] {
 			continue
@@ -746,6 +747,7 @@ func main() {
 	run.Set("semantic_mutations", semLog)
 	run.Set("panics_seen_not_raised_here", panics)
 	run.Set("skipped_variants", skipped)
+	run.Set("semantic_mutations_not_constructible", semSkipped)
 	run.Set("phase_seconds", map[string]float64{"build+sign": buildSecs, "flips": flipSecs, "semantic": time.Since(start).Seconds() - buildSecs - flipSecs})
 	dk := map[string]int64{}
 	devKnown.Range(func(k, v any) bool { dk[k.(string)] = *(v.(*int64)); return true })
